@@ -35,6 +35,25 @@ Theorem T2_doc_sem_deps_before : forall p ds, doc_sem p = Ok ds ->
 Proof. exact doc_sem_deps_before. Qed.
 Print Assumptions T2_doc_sem_deps_before.
 
+(** the combinations of a crossing: one level per crossed factor, each a level of that factor *)
+Theorem T2_doc_sem_mult_shape : forall p ds, doc_sem p = Ok ds ->
+  forall c, In c (s_crossings (ds_sem ds)) -> forall im, In im (c_mult c) -> List.length (fst im) = List.length (c_factors c).
+Proof. exact doc_sem_mult_shape. Qed.
+Print Assumptions T2_doc_sem_mult_shape.
+
+Theorem T2_doc_sem_mult_levels : forall p ds, doc_sem p = Ok ds ->
+  forall c, In c (s_crossings (ds_sem ds)) -> forall im, In im (c_mult c) ->
+  Forall2 (fun l cf => l < f_nlevels (nth cf (s_factors (ds_sem ds)) dfactor0)) (fst im) (c_factors c).
+Proof. exact doc_sem_mult_levels. Qed.
+Print Assumptions T2_doc_sem_mult_levels.
+
+(** the acceptance tables: at most one column per dependency, cells name levels of the dependency *)
+Theorem T2_doc_sem_tables_shape : forall p ds, doc_sem p = Ok ds ->
+  forall fd w, In fd (s_factors (ds_sem ds)) -> f_derived fd = Some w ->
+  forall rows, In rows (w_table w) -> forall row, In row rows -> row_ok (s_factors (ds_sem ds)) (w_deps w) row.
+Proof. exact doc_sem_tables_shape. Qed.
+Print Assumptions T2_doc_sem_tables_shape.
+
 (** (b) CrossBlock(d, c, cs, rcc) = MultiCrossBlock(d, [c], cs, rcc, WEIGHT) *)
 Theorem T2_cross_is_multi_weight : forall p d c cs rcc,
   doc_sem_block p (PCross d c cs rcc) = doc_sem_block p (PMulti d [c] cs rcc DWeight EqualPreamble).
